@@ -602,7 +602,7 @@ func (C17) pure(tp *tape.Tape) core.Result {
 	}
 	for i := 0; i < nst; i++ {
 		var src string
-		switch tp.Draw(13) {
+		switch tp.Draw(14) {
 		case 10: // a program is free to rebind a built-in's name; the other built-ins must not care
 			src = []string{
 				"fromto = (a, b) -> while a <= b {\nyield a\na = a + 1\n}",
@@ -697,6 +697,15 @@ func (C17) pure(tp *tape.Tape) core.Result {
 			}
 			src = "write(gk + \"|\" + toa(#gk))"
 			r.Inc("P.toa_result_kept", 1)
+		case 13: // several renderings within one statement, of values that compare equal yet print differently (and the reverse)
+			pool := []string{"0.0", "((0 - 1) * 0.0)", "0", "(0 - 0.0)", "1", "1.0", "(0.0 * (0 - 3))", "[0.0]", "[((0 - 1) * 0.0)]", "\"0\"", "true", "(2.0 / 2)", "[0]"}
+			n := 2 + tp.Draw(4)
+			el := make([]string, n)
+			for i := range el {
+				el[i] = "toa(" + pool[tp.Draw(len(pool))] + ")"
+			}
+			src = "write([" + strings.Join(el, ", ") + "])"
+			r.Inc("P.toa_several_in_one_statement", 1)
 		default:
 			src = "toa(" + drawValueExpr(tp, 2) + ")"
 			r.Inc("P.toa", 1)
